@@ -516,10 +516,8 @@ func c19Descriptors(c *core.Check) {
 			if !ok {
 				return
 			}
-			if par, isP := ia.X.(*ssa.Parameter); !isP || par != fn.Params[0] {
-				if phi, isPhi := ia.X.(*ssa.Phi); !isPhi || phi.Comment != "tokens" {
-					return
-				}
+			if !core.DerivesFrom(ia.X, func(v ssa.Value) bool { return v == ssa.Value(fn.Params[0]) }) {
+				return
 			}
 			n++
 			if k, isK := core.ConstInt(ia.Index); isK && k == 0 {
